@@ -93,7 +93,36 @@ def jobs_for(prop, suite):
     return jobs
 
 
+def equiv_variant(path):
+    """behaviour-preserving variant: every check must stay silent"""
+    d = scratch()
+    try:
+        repo = d + "/repo"
+        subprocess.run(["git", "init", "-q", "."], cwd=repo, check=True)
+        if subprocess.run(["git", "apply", path], cwd=repo, capture_output=True).returncode != 0:
+            return dict(id=os.path.basename(path), status="skipped", why="patch does not apply")
+        shutil.rmtree(repo + "/.git", ignore_errors=True)
+        if subprocess.run(["go", "build", "./..."], cwd=repo, capture_output=True, env=ENV).returncode != 0:
+            return dict(id=os.path.basename(path), status="skipped", why="does not compile")
+        rc, nviol, rules, out = run_check(d, "all")
+        alarms = sorted(set(l.split()[1] for l in out.splitlines() if l.startswith("VIOLATION property=")))
+        fatal = [l for l in out.splitlines() if "unresolved anchor" in l or "fatal" in l.lower()][:3]
+        return dict(id=os.path.basename(path), status="silent" if rc == 0 and nviol == 0 else "FALSE-ALARM", exit=rc, alarms=alarms, rules=rules, fatal=fatal)
+    finally:
+        shutil.rmtree(d, ignore_errors=True)
+
+
 def main():
+    if len(sys.argv) > 1 and sys.argv[1] == "equiv":
+        paths = sorted(glob.glob(VERIF + "/mutants/equiv/*.diff"))
+        with concurrent.futures.ThreadPoolExecutor(max_workers=5) as ex:
+            rs = list(ex.map(equiv_variant, paths))
+        for r in rs:
+            print("equiv %-40s %s %s %s" % (r["id"], r["status"], r.get("alarms", ""), r.get("fatal", r.get("why", ""))))
+        for i, a in enumerate(sys.argv):
+            if a == "--json":
+                json.dump(rs, open(sys.argv[i + 1], "w"), indent=1)
+        return 0
     args = [a for a in sys.argv[1:] if not a.startswith("--")]
     suite = "--suite" in sys.argv
     props = args[0].split(",") if args and args[0] != "all" else ["C%02d" % i for i in range(1, 20)]
